@@ -103,6 +103,7 @@ class RunResult:
         self.nontrivial = False     # by the property's stated rule
         self.sched = None           # explicit schedule actually taken (sparse preemption list)
         self.extra = {}
+        self.sub = None             # batched executions: [(digest, nontrivial)] (one entry per sub-case)
 
     def violate(self, clause, detail=None):
         self.violations.append(Violation(clause, detail))
@@ -126,6 +127,7 @@ class RunResult:
             "points": self.points,
             "interleaving": self.interleaving,
             "nontrivial": self.nontrivial,
+            "sub": self.sub,
         }
 
 
